@@ -298,6 +298,15 @@ def single_op_programs(N=4):
     for mode in ('read', 'write', 'rewrite', 'reread'):
         out.append(Program(N, [(1, 'buffer_views', (0,), {'mode': mode})], 'buffer_views[%s]' % mode))
         out.append(Program(N, [(1, 'sin', (0,), {}), (2, 'buffer_views', (1,), {'mode': mode}), (3, 'exp', (2,), {})], 'buffer_views[%s]+' % mode))
+    # fan-out variants: the argument of the op has a SECOND consumer that is swept before the op (its adjoint contribution is already
+    # in the argument's adjoint when the op's pullback runs -- a pullback that assigns instead of accumulating loses it)
+    fan = []
+    for p in out:
+        st = p.stmts
+        if len(st) >= 1 and OPS[st[-1][1]]['arity'] == 1 and not p.name.startswith(('buffer', 'reshape[')):
+            k = st[-1][0]; arg = st[-1][2][0]
+            fan.append(Program(N, list(st) + [(k + 1, 'sum', (arg,), {}), (k + 2, 'mul', (k, k + 1), {})], p.name + '+fanout'))
+    out += fan
     return [p for p in out if p.shapes() is not None]
 
 
